@@ -40,6 +40,7 @@ type C03Plan struct {
 	Retry    bool      `json:"retry,omitempty"`    // receive: a first receipt dies when the table object is written, prune runs, the transfer is repeated
 	Reingest string    `json:"reingest,omitempty"` // doctor: repair through ingest.ReingestTable instead of doctor.Resolve: "index" (duplicates looked for in the block indices) | "blocks" (in the rows)
 	ReadSeed uint64    `json:"read_seed,omitempty"` // positions read back through diff.TableReader / diff.RowListReader
+	SwapIdx  bool      `json:"swap_idx,omitempty"` // receive: afterwards the source offers a damaged copy of the table (block indices of two blocks exchanged); it is refused, or what is stored is sound
 	DupEdge  bool      `json:"dup_edge,omitempty"` // ingest: the input repeats the lines whose keys end / start a block (positions 254, 255, 509, 510 in key order)
 }
 
@@ -69,6 +70,7 @@ func init() {
 				p.Reingest = Pick(rr, []string{"index", "blocks"})
 			}
 			p.ReadSeed = r.Sub("readers").Uint64()
+			p.SwapIdx = r.Sub("swapidx").Chance(0.5)
 			if r.Chance(0.4) {
 				p.NCols = max(p.NCols, r.Range(2, 5))
 				p.KeyCols = r.Perm(p.NCols)[:r.Range(2, min(4, p.NCols))]
@@ -346,6 +348,40 @@ func execC03(t *testing.T, raw json.RawMessage, res *Result) {
 			return
 		}
 		sum, checkStore = s0, dst
+		if srcTbl, err := objects.GetTable(src, s0); p.SwapIdx && err == nil && len(srcTbl.Blocks) >= 2 && !bytes.Equal(srcTbl.BlockIndices[0], srcTbl.BlockIndices[1]) {
+			// the destination now holds every block and block index of the table; a damaged copy of the
+			// table at the source names the same objects with two block indices exchanged
+			bad := *srcTbl
+			bad.BlockIndices = append([][]byte(nil), srcTbl.BlockIndices...)
+			bad.BlockIndices[0], bad.BlockIndices[1] = bad.BlockIndices[1], bad.BlockIndices[0]
+			var tb bytes.Buffer
+			bad.WriteTo(&tb)
+			badSum := meowSum(tb.Bytes())
+			src.RawSet("tbl/"+string(badSum), tb.Bytes())
+			c2 := &objects.Commit{Table: badSum, AuthorName: "a", AuthorEmail: "e", Message: "damaged", Time: bubbleEpoch, Parents: [][]byte{c.Sum}}
+			var cb2 bytes.Buffer
+			c2.WriteTo(&cb2)
+			c2.Sum = meowSum(cb2.Bytes())
+			src.RawSet("com/"+string(c2.Sum), cb2.Bytes())
+			src.TakeMonErrs()
+			var rerr error
+			if s2, err := apiutils.NewObjectSender(src, []*objects.Commit{c2}, map[string]struct{}{string(badSum): {}}, [][]byte{c.Sum}, 0); err == nil {
+				var buf bytes.Buffer
+				if _, _, err := s2.WriteObjects(&buf, nil); err == nil {
+					if pr, err := packfile.NewPackfileReader(io.NopCloser(bytes.NewReader(buf.Bytes()))); err == nil {
+						_, rerr = apiutils.NewObjectReceiver(dst, [][]byte{c2.Sum}, logr.Discard()).Receive(pr, nil)
+					}
+				}
+				dst.TakeMonErrs()
+				if _, ok := dst.Raw("tbl/" + string(badSum)); ok {
+					if c, d := CheckTable(dst, badSum); c != "" {
+						res.Violate("receive-damaged-table-stored:"+c, "a table whose block indices are exchanged between two blocks was received (err %v) and stored: %s", rerr, d)
+						return
+					}
+				}
+				res.probe("damaged_table_offered_after_the_honest_one", 1)
+			}
+		}
 	case "doctor":
 		if len(rows) < 2 {
 			res.Skip("doctor producer needs >= 2 rows")
